@@ -17,6 +17,9 @@ def weighted(*pairs):
     total = sum(w for w, _ in pairs)
 
     def pick(k):
+        # Hypothesis draws the end points of an integer range more often than the rest: rotate them into the first
+        # (by convention the heaviest) strategy
+        k = (k + total // 2) % total
         for w, s in pairs:
             if k < w:
                 return s
